@@ -74,12 +74,16 @@ def _entity(d, lex):
     vu = ' validUntil="%s"' % d["valid_until"] if d.get("valid_until") else ""
     parts.append('<md:EntityDescriptor xmlns:md="%s" xmlns:ds="%s" xmlns:saml="%s" xmlns:mdattr="%s" entityID="%s"%s>' % (
         MD, DS, SAML, MDATTR, esc(d["eid"]), vu))
-    if d.get("entity_categories"):
+    if d.get("entity_categories") or d.get("entity_category_support"):
         typ = ' xmlns:xs="http://www.w3.org/2001/XMLSchema" xmlns:xsi="http://www.w3.org/2001/XMLSchema-instance" xsi:type="%s"' % lex["ecat_type"] \
             if lex.get("ecat_type") else ""
-        vals = "".join("<saml:AttributeValue%s>%s</saml:AttributeValue>" % (typ, esc(c)) for c in d["entity_categories"])
-        parts.append('<md:Extensions><mdattr:EntityAttributes><saml:Attribute Name="http://macedir.org/entity-category" '
-                     'NameFormat="urn:oasis:names:tc:SAML:2.0:attrname-format:uri">%s</saml:Attribute></mdattr:EntityAttributes></md:Extensions>' % vals)
+        attrs = ""
+        # (entity-category: what the entity IS; entity-category-support: which categories it honours as a releasing party - not the same claim)
+        for aname, key in (("http://macedir.org/entity-category-support", "entity_category_support"), ("http://macedir.org/entity-category", "entity_categories")):
+            if d.get(key):
+                vals = "".join("<saml:AttributeValue%s>%s</saml:AttributeValue>" % (typ, esc(c)) for c in d[key])
+                attrs += '<saml:Attribute Name="%s" NameFormat="urn:oasis:names:tc:SAML:2.0:attrname-format:uri">%s</saml:Attribute>' % (aname, vals)
+        parts.append('<md:Extensions><mdattr:EntityAttributes>%s</mdattr:EntityAttributes></md:Extensions>' % attrs)
     # role descriptors for other protocols than SAML 2.0 (d["saml11"] = {"idp": {...}, "sp": {...}, "first": bool}): same entity, same role
     # element, endpoints of their own - nothing of them is a SAML 2.0 endpoint of the entity
     other = d.get("saml11") or {}
